@@ -318,10 +318,13 @@ DEST_A = ("127.0.0.1", 7101)
 DEST_B = ("127.0.0.1", 7102)
 
 
-def gram_case(ctx, kind, op, prior, cat, item):
+def gram_case(ctx, kind, op, prior, cat, item, once=False):
+    """once: the owner services the queue with serviceTxPktsOnce (one packet per pass) instead of serviceTxPkts"""
     st, dbl, sendop, recvop = gram_stack(kind)
     name = item_name(item)
-    ctx.case((kind, op, prior, name), nontrivial=True)
+    ctx.case((kind, op, prior, name, once), nontrivial=True)
+    if once:
+        ctx.hit("gram_send_once_path")
     ctx.hit("gram_%s_%s" % (op, cat))
     row = {"class": kind, "operation": op, "successful_operations_before": prior, "error": name, "category": cat}
     raised = None
@@ -332,7 +335,11 @@ def gram_case(ctx, kind, op, prior, cat, item):
                 st.transmit(mkpkt(st, t), DEST_A if i <= prior else DEST_B)
             dbl.script(sendop, [FULL] * prior + [item])
             try:
-                st.serviceTxPkts()
+                if once:
+                    for _ in range(prior + 1):
+                        st.serviceTxPktsOnce()
+                else:
+                    st.serviceTxPkts()
             except Exception as ex:   # noqa
                 raised = ex
             sent1 = [d for (o, d, r) in dbl.log if o == sendop and isinstance(r, int)]
@@ -342,7 +349,7 @@ def gram_case(ctx, kind, op, prior, cat, item):
                 return dict(row, raised=repr(raised), queued=[t.hex() for t in tags],
                             sends=[(d[0].hex(), repr(d[1]), repr(r)) for (o, d, r) in dbl.log if o == sendop],
                             left_in_txPkts=[bytes(p.packed).hex() for p, _ in st.txPkts])
-            key = "%s/%s/%s:%s/" % (kind, sendop, cat, name)
+            key = "%s/%s%s/%s:%s/" % (kind, sendop, "-once" if once else "", cat, name)
             if not ctx.check(injected is not None, "harness/error-not-injected", "error never raised by the double", wit):
                 return
             if cat == "loss":
@@ -351,8 +358,8 @@ def gram_case(ctx, kind, op, prior, cat, item):
                     return
                 ctx.check([bytes(p.packed) for p, _ in st.txPkts].count(tags[prior]) == 1, key + "packet-not-kept",
                           "%s: the packet whose send failed with %s is not kept for retry" % (kind, name), wit)
-                for _ in range(3):
-                    st.serviceTxPkts()
+                for _ in range(3 if not once else 3 * len(tags) + 3):
+                    (st.serviceTxPktsOnce if once else st.serviceTxPkts)()
                 sent = [d[0] for (o, d, r) in dbl.log if o == sendop and isinstance(r, int)]
                 ctx.check(sorted(sent) == sorted(tags) and not st.txPkts, key + "retry-not-exactly-once",
                           "%s: after a transient send error %s the packets are not each sent exactly once" % (kind, name), wit)
@@ -459,6 +466,8 @@ def run(ctx):
                     rows += [("block" if op == "receive" else "unjudged", WOULDBLOCK)]
                 for cat, item in rows:
                     gram_case(ctx, kind, op, prior, cat, item)
+                    if op == "send":
+                        gram_case(ctx, kind, op, prior, cat, item, once=True)
     for op in ("send", "receive"):
         rows = [("unjudged", ERR(c)) for c in LOSS_ERRNOS] + [("other", ERR(c)) for c in OTHER_ERRNOS]
         rows += [("block" if op == "receive" else "unjudged", WOULDBLOCK)]
